@@ -133,6 +133,18 @@ def random_table(rs, ncol, pattern, nrow=None):
         frailty = rs.gamma(1.0 / th, 1.0, size=n)
         u = (1.0 + rs.exponential(size=(n, ncol)) / frailty[:, None]) ** (-1.0 / th)
         z = stats.norm.ppf(np.clip(u, 1e-12, 1 - 1e-12))
+    elif pattern == 'near-tie':            # two pairs whose Kendall taus differ by a single pair of rows (2 / C(n, 2), about 3e-6 for 1100 rows)
+        n = max(n, 1100)
+        z = rs.normal(size=(n, ncol))
+        z[:, 1] = 0.7 * z[:, 0] + 0.7 * z[:, 1]
+        for j in range(3, ncol):
+            z[:, j] = 0.3 * z[:, 0] + z[:, j]
+        z[:, 2] = z[:, 1]
+        order = np.argsort(z[:, 1])
+        for a, b in zip(order[:-1], order[1:]):          # neighbours in the second column that the first column orders the other way
+            if z[a, 0] > z[b, 0]:
+                z[a, 2], z[b, 2] = z[b, 1], z[a, 1]      # the third column agrees with the first on this one pair more than the second does
+                break
     elif pattern == 'exact-monotone':      # one column is an increasing function of another (|Kendall tau| exactly 1), the rest hang on loosely
         for j in range(2, ncol):
             z[:, j] = 0.5 * z[:, 0] + 0.8 * z[:, j]
